@@ -475,6 +475,33 @@ func runC12(c *Ctx) {
 		extract(n, [][]byte{atoms[1], atoms[2]}, []byte{0xff, 0xff, 0xff})
 		extract(n, nil, nil)
 	}
+	// structurally consistent proofs for counts beyond the limit: the path to the leftmost transaction (height+1 set
+	// bits, one unset bit and one hash per right sibling); and counts near 2^32 whose tree width wraps in 32 bits
+	pathProof := func(n uint32) {
+		h := 0
+		for (uint64(n)+(uint64(1)<<uint(h))-1)>>uint(h) > 1 {
+			h++
+		}
+		nb := 2*h + 1
+		flags := make([]byte, (nb+7)/8)
+		for i := 0; i <= h; i++ {
+			flags[i/8] |= 1 << uint(i%8)
+		}
+		hs := [][]byte{atoms[1]}
+		for i := 0; i < h; i++ {
+			hs = append(hs, atoms[2+i%2])
+		}
+		extract(n, hs, flags)
+	}
+	for _, n := range []uint32{max - 1, max, max + 1, max + 2, max + max/3, 1 << 22, 1<<22 - 1, 1<<22 + 1, 1 << 23, 1 << 26} {
+		pathProof(n)
+	}
+	for _, n := range []uint32{math.MaxUint32, math.MaxUint32 - 1, math.MaxUint32 - 2, 1<<31 + 1, 1<<32 - 1<<10} {
+		for _, fl := range []byte{0x07, 0x03, 0x05, 0x01} {
+			extract(n, [][]byte{atoms[1], atoms[2]}, []byte{fl})
+		}
+		extract(n, [][]byte{atoms[1], atoms[2], atoms[0]}, []byte{0x1f})
+	}
 }
 
 // growth X02: PartialBlock objects are single-use
